@@ -19,12 +19,17 @@ Cases == {[m |-> m.id, kind |-> m.kind, st |-> s, ct |-> c, body |-> b, place |-
          \cup {[m |-> m.id, kind |-> m.kind, st |-> s, ct |-> c, body |-> "valid", place |-> p] :
                  m \in {x \in Methods : x.kind \in MsKinds}, s \in {207, 200, 404}, c \in {"xml", "none"},
                  p \in {"resp404", "resp403", "resp500", "ps403", "ps500", "opt404"}}
+\* payloads that are well-formed XML but carry an unparsable object: the call must fail, not panic
+PayloadMethods == {"cal.QueryCalendar", "cal.MultiGetCalendar", "cal.GetCalendarObject", "card.QueryAddressBook", "card.MultiGetAddressBook", "card.GetAddressObject"}
+PayloadCases == {[m |-> m.id, kind |-> m.kind, st |-> IF m.kind = "getobj" THEN 200 ELSE 207, ct |-> IF m.kind = "getobj" THEN "obj" ELSE "xml", body |-> b, place |-> "none"] :
+                   m \in {x \in Methods : x.id \in PayloadMethods}, b \in {"badpayload", "badpayload2"}}
 \* F0: sanity of the classification
 ASSUME \A c \in Cases : (c.kind = "plain" /\ Is2xx(c.st)) => ~ErrExpected(c.kind, c)
 ASSUME \A c \in Cases : ~Is2xx(c.st) => ErrExpected(c.kind, c) /\ CodeExpected(c) = c.st
 ASSUME \A c \in Cases : (c.kind \in MsKinds /\ c.st = 207 /\ c.body = "valid" /\ c.place \in {"none", "opt404"}) => ~ErrExpected(c.kind, c)
-ASSUME ndJsonSerialize(IOEnv.OUT \o "/c14.ndjson", SetToSeq(Cases))
-ASSUME PrintT(<<"COUNTS", Cardinality(Cases), Cardinality(Methods)>>)
+ASSUME \A c \in PayloadCases : ErrExpected(c.kind, c)
+ASSUME ndJsonSerialize(IOEnv.OUT \o "/c14.ndjson", SetToSeq(Cases \cup PayloadCases))
+ASSUME PrintT(<<"COUNTS", Cardinality(Cases \cup PayloadCases), Cardinality(Methods)>>)
 VARIABLE x
 Init == x = 0
 Next == UNCHANGED x
